@@ -81,12 +81,16 @@ def random_exec(rng, n, naddr, P):
             ex.append(["report", 0, 0, 0, "", 0, "all"])
             ex.append(["clear", 0, 0, 0, "", 0, q])
             ex.append(["clear", 0, 0, 0, "", 0, "all"]); live = {}
-        elif r < 0.94:
+        elif r < 0.93:
             ex.append(["demote", 0, 0, 0, "", 0, ""])
-        elif r < 0.95:
+        elif r < 0.94:
             ex.append(["freenull", 0, 0, 0, "", 0, ""])
+        elif r < 0.965:
+            # the lookup operator delete / free do before the release (poisoning): of a live block mostly, sometimes of any address
+            a = rng.choice(sorted(live)) if live and rng.random() < 0.8 else rng.choice(addrs)
+            ex.append(["inval", a, 0, 0, "", 0, ""])
         else:
-            ex.append(["report", 0, 0, 0, "", 0, rng.choice(["all", "disabled", "enabled", "checking"])])
+            ex.append(["report", 0, 0, 0, rng.choice(["", "keep", "keep"]), 0, rng.choice(["all", "disabled", "enabled", "checking"])])
     return ex
 
 
@@ -99,7 +103,7 @@ def many_leaks_exec(rng, n):
         if i % 7 == 3:
             ex.append([rng.choice(["enable", "startchecking", "stopchecking"]), 0, 0, 0, "", 0, ""])
     for q in ("all", "enabled", "checking", "disabled"):
-        ex.append(["report", 0, 0, 0, "", 0, q])
+        ex.append(["report", 0, 0, 0, rng.choice(["", "keep"]), 0, q])
     for a in addrs[::3]:
         ex.append(["free", a, 0, 0, "", 0, ""])
     ex.append(["report", 0, 0, 0, "", 0, "all"])
@@ -183,4 +187,5 @@ def run(ctx):
         distinct_nontrivial=len(nontrivial), exhaustive=False,
         assumptions=["the arena allocator of the harness returns the addresses chosen by the behaviour; real bucket = address mod MEMORY_LEAK_HASH_TABLE_SIZE",
                      "report entries are compared as a multiset (order is a diagnostic)",
-                     "the report op clears the detector's text buffer with startChecking() and restores the period"])
+                     "the report op clears the detector's text buffer with startChecking() and restores the period, except for reports marked 'keep' (no clearing, as when "
+                     "the final report follows a test's leak report): there the report is the text the call appended to what the buffer already held"])
